@@ -54,7 +54,9 @@ THEOREMS = ['C07_plane_intersection_on_both', 'C07_plane_intersection_direction'
             'C07_base_vectors_wrong_count', 'C07_intersection_error_iff',
             'C07_sort_sides_outcomes', 'C07_base_vectors_parallel_planes',
             'C07_collinear_sides_parallel', 'C07_walk_ends_iff_closed_tour',
-            'C07_sort_count_error']
+            'C07_sort_count_error', 'C07_rhp_is_C03_rhp_linked',
+            'C07_develop_lattice_hex_is_tied', 'C07_caps_parallel_to_axis',
+            'C07_flipped_sense_lattice_error']
 TRUSTED = [
     'hand-written model coq/C07/Model.v (modelled, tied by execution only)',
     'binary64 evaluation: the theorems are over R; the model is run at '
@@ -145,6 +147,9 @@ def guarded(fun, *args):
     from t4_geom_convert.Kernel.Volume.Lattice import LatticeError
     old = signal.signal(signal.SIGALRM, _alarm)
     signal.setitimer(signal.ITIMER_REAL, 2.0)
+    tracing = COV is not None and COV_ON[0]
+    if tracing:
+        COV.__enter__()
     try:
         return ('ok', fun(*args))
     except ZeroDivisionError:
@@ -160,6 +165,8 @@ def guarded(fun, *args):
     except Exception:       # pylint: disable=broad-except
         return ('err', 'EOther')
     finally:
+        if tracing:
+            COV.__exit__()
         signal.setitimer(signal.ITIMER_REAL, 0)
         signal.signal(signal.SIGALRM, old)
 
@@ -275,13 +282,51 @@ def rhp_card_deck(rng):
     return [float(v) for v in params], deckmod.render(deck)
 
 
-def convert_watchdog(text, secs=30.0):
+DEVELOP_RECORDS = []        # calls of develop_lattice seen in this run
+COV = None                  # line-coverage tracer of the anchored functions
+COV_ON = [False]            # trace the function-level calls of this iteration
+
+# lines of the anchored functions that no input of this check can reach
+UNREACHABLE = [
+    # develop_lattice: only called for lattice cells by ConstructVolumeT4, with
+    # a LatticeSpec; LAT=1 belongs to C06
+    'return', 'lat_base_vectors = squareLatticeBaseVectors(surfaces)',
+    # fewer FILL ranges than base vectors: only through the --lattice option (C06)
+    "msg = ('Problem of domain definition for lattice; expected '",
+    "f'at least {n_vectors} bounds, got {len(domain.bounds)}')",
+    # hexSortSides is only called by hexVertices, with six planes
+    "raise LatticeError('hexSortSides() must be called with 6 planes')",
+]
+
+
+def anchored_functions():
+    from t4_geom_convert.Kernel import VectUtils as VU
+    from t4_geom_convert.Kernel.Volume import Lattice as LT
+    from t4_geom_convert.Kernel.Volume.CellConversion import CellConversion
+    from t4_geom_convert.Kernel.Surface import MacroBodies as MB
+    return [VU.pointInPlaneIntersection, VU.planeSide, VU.projectPointOnPlane,
+            VU.rotate, VU.planeParamsFromNormalAndPoint,
+            LT.areHexSidesAdjacent, LT.hexSortSides, LT.hexVertices,
+            LT.hexLatticeBaseVectors, LT.latticeVector,
+            CellConversion.develop_lattice, CellConversion.extract_surfaces,
+            MB.rhp]
+
+
+def convert_watchdog(text, secs=30.0, trace=False):
     """impl.convert under a watchdog: a conversion that does not end (the
-    unbounded loop of hexVertices) comes back as exc='Hang'."""
+    unbounded loop of hexVertices) comes back as exc='Hang'.  Every call of
+    CellConversion.develop_lattice made on the way is recorded (run-time
+    wrapper of props/c06.py) for tie:develophex."""
+    from props import c06
     old = signal.signal(signal.SIGALRM, _alarm)
     signal.setitimer(signal.ITIMER_REAL, secs)
+    tracing = COV is not None and trace
     try:
-        return impl.convert(text, keep_stdout=False)
+        with c06.spy_develop(DEVELOP_RECORDS):
+            if tracing:
+                with COV:
+                    return impl.convert(text, keep_stdout=False)
+            return impl.convert(text, keep_stdout=False)
     finally:
         signal.setitimer(signal.ITIMER_REAL, 0)
         signal.signal(signal.SIGALRM, old)
@@ -345,9 +390,11 @@ def plane_card(sid, point, nrm):
     return {'id': sid, 'mn': 'p', 'params': nrm + [d], 'tr': None, 'bc': ''}
 
 
-def gen_deck(rng, style=None):
+def gen_deck(rng, style=None, force=None):
     '''LAT=2 deck; every element of the FILL array gets its own universe (or 0,
-    or the lattice's own universe). Returns (deck, meta).'''
+    or the lattice's own universe). Returns (deck, meta).  `force` (0..4) fixes the
+    placement variant and puts a 0 and an own-universe entry in the array (the
+    first decks of the sweep cover every branch of develop_lattice).'''
     import deck as deckmod
     S = deckmod.S
     if style is None:
@@ -428,7 +475,7 @@ def gen_deck(rng, style=None):
         n_el = 1
         for lo, hi in ranges:
             n_el *= hi - lo + 1
-        if 2 <= n_el <= 14:
+        if (3 if force is not None else 2) <= n_el <= 14:
             break
     array = []
     for k in range(n_el):
@@ -444,6 +491,8 @@ def gen_deck(rng, style=None):
         # nothing to convert (construct_volume_t4 then fails on an empty
         # max(): a corner outside this property, see notes/C07.md)
         array[0] = 10
+    if force is not None:
+        array[0], array[1], array[2] = 10, 0, 1
     cells = []
     reach = 0.0
     all_vecs = list(vecs) + ([np.zeros(3)] if len(vecs) == 2 else [])
@@ -493,6 +542,8 @@ def gen_deck(rng, style=None):
     # moved by TRCL, or the lattice universe placed by a fill transformation
     moved = None
     roll = rng.random()
+    if force is not None:
+        roll = [0.9, 0.05, 0.15, 0.25, 0.35][force]
     if roll < 0.12 and style == 'planes':
         moved = 'surface-tr'
         trf = deckmod.random_tr(rng)
@@ -519,6 +570,11 @@ def gen_deck(rng, style=None):
     elif roll < 0.32:
         moved = 'container-fill-tr'
         cells[0]['fill']['tr'] = deckmod.random_tr(rng)
+    elif roll < 0.42:
+        # every filler placed by the fill transformation of the lattice cell
+        # (develop_lattice composes it with the element translation)
+        moved = 'lattice-fill-tr'
+        cells[1]['fill']['tr'] = deckmod.random_tr(rng)
     move = None
     if moved in ('trcl', 'container-fill-tr'):
         radius = gen.clean(radius + 9.0)
@@ -676,6 +732,38 @@ def finding_class(_conv, _meta):
 # ---- the check ------------------------------------------------------------
 
 def run(res, tier, seed, proofs_ok):
+    '''Ties and sweep; the first 250 admissible prisms, every malformed one and
+    the first 30 conversions run under a line tracer restricted to the
+    anchored functions: every line a LAT=2 input can reach must be executed.'''
+    import c02_cov
+    global COV
+    cov = COV = c02_cov.LineCov(anchored_functions())
+    try:
+        _run(res, tier, seed, proofs_ok)
+    finally:
+        COV = None
+        COV_ON[0] = False
+    total, missing = cov.missing(UNREACHABLE)
+    import linecache
+    from t4_geom_convert.Kernel.Volume import CellConversion as ccmod
+    # the raise that follows the 'at least n bounds' message (see UNREACHABLE)
+    missing = [m for m in missing
+               if not (m[2] == 'raise LatticeError(msg)' and 'at least' in
+                       linecache.getline(ccmod.__file__, m[1] - 1))]
+    res.obligation('coverage: the generated inputs execute every reachable line '
+                   f'of the anchored functions ({total} lines of '
+                   f'{len(cov.codes)} code objects)', not missing,
+                   f'never executed: {missing[:6]}')
+    if missing:
+        res.violation('harness-error',
+                      'generated inputs no longer reach these lines of the '
+                      f'anchored code (strengthen the generators): {missing[:8]}',
+                      {'theorem_or_correspondence': 'coverage',
+                       'input': {'lines': [list(m) for m in missing[:20]]}},
+                      found_input=False)
+
+
+def _run(res, tier, seed, proofs_ok):
     from t4_geom_convert.Kernel import VectUtils as VU
     from t4_geom_convert.Kernel.Volume import Lattice as LT
     import deck as deckmod
@@ -701,10 +789,11 @@ def run(res, tier, seed, proofs_ok):
                 'non-trivial = every case (distinct by surfaces)')
 
     _T0[0] = time.time()
+    del DEVELOP_RECORDS[:]
     # ---------------- corpus ----------------
     # witness of the repaired finding six_planes_trivial_range: one row of
     # hexagons, six planes; must convert
-    conv = convert_watchdog(WITNESS_TRIVIAL_RANGE, 15.0)
+    conv = convert_watchdog(WITNESS_TRIVIAL_RANGE, 15.0, trace=True)
     res.seen(WITNESS_TRIVIAL_RANGE)
     if not conv.ok:
         res.violation('impl-violation',
@@ -734,6 +823,7 @@ def run(res, tier, seed, proofs_ok):
     adj_meta, inter_meta, side_meta, proj_meta = [], [], [], []
     hangs = 0
     for num, (surfs, hexa, listing, fault) in enumerate(stream):
+        COV_ON[0] = num < 250 or fault is not None
         if hangs >= 4 and hexa is not None:
             # the loop of hexVertices no longer ends on admissible prisms:
             # already reported; do not wait 2 s for each of the others
@@ -782,7 +872,7 @@ def run(res, tier, seed, proofs_ok):
                 clist(csurf(s) for s in surfs),
                 cres(out, lambda v: clist(cvec(x) for x in v))))
             base_meta.append(surfs)
-        if num % 3 == 0 or fault is not None:
+        if num % (5 if quick else 3) == 0 or fault is not None:
             first = rng.randrange(6) if rng.random() < 0.95 else rng.choice([6, 7])
             vout = guarded(LT.hexVertices, surfs, first)
             if vout[0] == 'err' or finite(vout[1]):
@@ -801,7 +891,7 @@ def run(res, tier, seed, proofs_ok):
                                                  'listing': listing},
                                        'observed': repr(vout)},
                                       found_input=True)
-        if num % (8 if quick else 5) == 0 or fault is not None:
+        if num % (10 if quick else 5) == 0 or fault is not None:
             six = surfs[:6] if rng.random() < 0.9 else surfs
             sout = guarded(LT.hexSortSides, six)
             if sout[0] == 'err' or finite(sout[1]):
@@ -809,7 +899,8 @@ def run(res, tier, seed, proofs_ok):
                                         cres(sout, cadj)))
                 sort_meta.append(six)
                 res.count('sort:' + (sout[1] if sout[0] == 'err' else 'ok'))
-        if (num % 4 == 0 or fault is not None) and len(surfs) >= 6:
+        if (num % (6 if quick else 4) == 0 or fault is not None) \
+                and len(surfs) >= 6:
             i, j = rng.sample(range(6), 2)
             k = rng.choice([x for x in range(6) if x not in (i, j)])
             k2 = rng.randrange(len(surfs))
@@ -927,7 +1018,7 @@ def run(res, tier, seed, proofs_ok):
             for lo, hi in bounds:
                 n_el *= hi - lo + 1
             text = domain_deck(nvec, bounds, n_el)
-            conv = convert_watchdog(text, 15.0)
+            conv = convert_watchdog(text, 15.0, trace=len(dom_cases) % 6 == 0)
             res.seen(text)
             if conv.ok:
                 out = ('ok', None)
@@ -1024,15 +1115,16 @@ def run(res, tier, seed, proofs_ok):
     for num in range(n_decks):
         if deck_hangs >= 2:
             break
-        deck, meta = gen_deck(rng)
+        deck, meta = (gen_deck(rng, style='planes', force=num) if num < 5
+                      else gen_deck(rng))
         text = deckmod.render(deck)
         res.seen(text)
         res.count('deck:' + meta['style'])
         if meta['moved']:
             res.count('deck moved:' + meta['moved'])
         with spy:
-            conv = convert_watchdog(text, 15.0)
-        if (meta['moved'] in (None, 'container-fill-tr')
+            conv = convert_watchdog(text, 15.0, trace=num < 30)
+        if (meta['moved'] in (None, 'container-fill-tr', 'lattice-fill-tr')
                 and len(spy.captured) == 1):
             # the (plane, side) list develop_lattice handed to
             # hexLatticeBaseVectors, against the model of the cards
@@ -1088,7 +1180,7 @@ def run(res, tier, seed, proofs_ok):
     for _ in range(40 if quick else 300):
         params, text = rhp_card_deck(rng)
         with spy:
-            conv = convert_watchdog(text, 15.0)
+            conv = convert_watchdog(text, 15.0, trace=len(rhp_cases) % 3 == 0)
         res.seen(text)
         if len(spy.captured) == 1:
             got = ('ok', spy.captured[0])
@@ -1128,6 +1220,82 @@ def run(res, tier, seed, proofs_ok):
     run_tie('rotate', 'c07_rotate', TIE_MODEL['rotate'][0], 'check_rotate',
             rot_cases, rot_meta, 'rotate FS')
     _stage('surface-list ties')
+    # malformed LAT=2 cells, only to feed tie:develophex with the error paths
+    # of develop_lattice: a flipped literal (LatticeError raised by
+    # hexSortSides and re-raised), a cap parallel to the axis
+    # (ZeroDivisionError), a literal dropped (AssertionError)
+    for k_bad in range(18 if quick else 120):
+        deck, meta = gen_deck(rng, style='planes')
+        while meta['moved']:
+            deck, meta = gen_deck(rng, style='planes')
+        lat = deck['cells'][1]
+        lits = list(lat['expr'][1:])
+        fault = ['flip', 'cap', 'drop'][k_bad % 3]
+        if fault == 'flip':
+            k = rng.randrange(6)
+            lits[k] = ('s', -lits[k][1])
+        elif fault == 'cap' and len(lits) == 8:
+            k = rng.choice([6, 7])
+            lits[k] = ('s', abs(lits[rng.randrange(6)][1])
+                       * (1 if lits[k][1] > 0 else -1))
+        else:
+            fault = 'drop'
+            del lits[rng.randrange(len(lits))]
+        lat['expr'] = ('*',) + tuple(lits)
+        text = deckmod.render(deck)
+        conv = convert_watchdog(text, 15.0, trace=True)
+        res.seen(text)
+        res.count(f'malformed deck ({fault}): '
+                  + ('converted' if conv.ok else str(conv.exc)))
+    # develop_lattice for LAT=2 at function level: every call recorded during
+    # the conversions above (deck sweep, range combinations, RHP cards)
+    from props import c06
+    dev_cases, dev_meta = [], []
+    for rec in DEVELOP_RECORDS:
+        if rec.get('lattice') != 2 or 'snapshot_error' in rec:
+            continue
+        if rec['out'][0] == 'err' and rec['out'][1] not in (
+                'LatticeError', 'ZeroDivisionError', 'AssertionError'):
+            rec = dict(rec, out=('err', 'MissingLatticeOptError'))
+        case, problems = c06.develop_case(rec)
+        res.count('develop_lattice LAT=2: '
+                  + (rec['out'][1] if rec['out'][0] == 'err'
+                     else f'{len(rec["out"][1])} elements'
+                     if len(rec['out'][1]) < 3 else '3+ elements'))
+        for prob in problems[:1]:
+            res.violation('impl-violation',
+                          'develop_lattice (LAT=2): ' + prob,
+                          {'input': {'record': repr(rec)[:3000]}},
+                          found_input=True)
+        dev_cases.append(case)
+        dev_meta.append({'ids': rec['ids'], 'fill': rec['fill'],
+                         'out': repr(rec['out'])[:400]})
+    bad, errs = common.run_case_files(
+        'c07_devhex',
+        'From Coq Require Import List ZArith Bool String Ascii PrimFloat.\n'
+        'From T4V Require Import Base.Str Base.Scalar C06.Model C06.Exec.\n'
+        'From T4V Require C07.ExecDevelop.\nOpen Scope string_scope.\n',
+        'develop_case', 'C07.ExecDevelop.check_develop_hex', dev_cases)
+    res.obligation(f'tie:develophex ({len(dev_cases)} recorded calls of '
+                   'develop_lattice on LAT=2 cells: model '
+                   'develop_lattice_hex_gen FS = implementation)',
+                   not bad and not errs and len(dev_cases) > 20,
+                   f'{len(bad)} disagreements {errs[:1]}')
+    if errs:
+        res.violation('correspondence',
+                      'tie:develophex: the generated Coq files did not run: '
+                      + errs[0][-300:],
+                      {'theorem_or_correspondence': 'tie:develophex',
+                       'errors': errs[:2]}, found_input=False)
+    for idx in bad[:5]:
+        res.violation('correspondence',
+                      'tie:develophex: model and implementation disagree on '
+                      f'recorded call {idx}: {repr(dev_meta[idx])[:300]}',
+                      {'input': {'tie': 'develophex', 'args': dev_meta[idx]},
+                       'case': dev_cases[idx],
+                       'theorem_or_correspondence': 'tie:develophex'},
+                      found_input=False)
+    _stage('tie develophex')
     res.count('deck points checked', n_checked)
     res.obligation(f'sweep: {n_decks} LAT=2 decks, {n_checked} points located '
                    'with the reference semantics', n_checked > 20 * n_decks,
